@@ -99,9 +99,10 @@ class GcodeHandlers(object):
         if (clockwise):
             angularTravel -= TWO_PI
 
-        # Make a circle if the angular travel is 0 and the target is current position
-        if (angularTravel == 0) and (x == endX) and (y == endY):
-            angularTravel = TWO_PI
+        # Make a circle if the target is the current position.  The angular travel computed above is
+        # zero (or a full turn) only up to rounding noise in that case, so it cannot be compared to 0.
+        if (x == endX) and (y == endY):
+            angularTravel = -TWO_PI if (clockwise) else TWO_PI
 
         # Compute the number of segments to produce based on the length of the arc
         arcLength = abs(angularTravel) * radius
